@@ -242,7 +242,10 @@ ExpandUse(st, fr, u) ==
            \* a macro without formals takes no argument list: a parenthesised group behind its usage is ordinary
            \* text that survives (rescanned), also when the macro has no body or no value
            ParenOnly == [ok |-> TRUE, err |-> <<>>, items |-> BodyItems(ParenToks(u.a[1])),
-                         tag |-> IF fr.org # NoTag THEN fr.org ELSE Tag("exp", fr.file, u.off), none |-> FALSE]
+                         \* the group is copied from where it is written: no byte of it lies before its "(" (third
+                         \* token of the usage: back-tick, name, parenthesis - white space may stand in front of it)
+                         tag |-> IF fr.org # NoTag THEN fr.org
+                                 ELSE Tag("exp", fr.file, u.off + (IF Len(u.to) >= 3 THEN u.to[3] ELSE 0)), none |-> FALSE]
        IN
        IF d.none THEN (IF u.a = <<>> THEN Nothing ELSE ParenOnly)
        ELSE IF d.a # <<>> /\ u.a = <<>> THEN Bad(<<"DefineNoArgs", d.n>>)
